@@ -42,7 +42,8 @@ def gen_case(rng):
     for i, c in enumerate(chans):
         sr_i, n_i = SR, N
         if deviation == "sr" and i == dev_ch:
-            sr_i = SR * rng.choice([2, 0.5, 10]) if SR != 1 else 2
+            # also rates that differ only in the 6th / 10th significant digit: unequal is unequal
+            sr_i = SR * rng.choice([2, 0.5, 10, 1 + 3e-6, 1 + 2e-10, 1 - 4e-10]) if SR != 1 else rng.choice([2, 1 + 3e-6, 1 + 2e-10])
         if deviation == "points" and i == dev_ch:
             n_i = N + rng.choice([1, 2, 5, -1, -2]) if N > 6 else N + rng.choice([1, 2, 5])
         if deviation == "long" and i == dev_ch:
